@@ -1,5 +1,382 @@
-(* C12 lemmas. *)
-From Coq Require Import ZArith NArith List Bool Lia.
+(* C12 lemmas: decimal digits, literal conversions, the spine-insertion algorithm, print/parse round trip. *)
+From Coq Require Import ZArith NArith List Bool Lia ZifyBool ZifyNat ZifyN.
 From OG Require Import C12.Model.
 Import ListNotations.
 Open Scope N_scope.
+
+(* ------------------------------------------------------------------ decimal digits *)
+Lemma digits_fuel_app : forall f n acc, digits_fuel f n acc = digits_fuel f n [] ++ acc.
+Proof.
+  induction f as [|f IH]; intros n acc; cbn [digits_fuel].
+  - reflexivity.
+  - destruct (n <? 10).
+    + reflexivity.
+    + rewrite IH. rewrite (IH _ [_]). rewrite <- app_assoc. reflexivity.
+Qed.
+
+Lemma digits_val_acc_app : forall s t a,
+  digits_val_acc a (s ++ t) = match digits_val_acc a s with Some x => digits_val_acc x t | None => None end.
+Proof.
+  induction s as [|c s IH]; intros t a; cbn [app digits_val_acc].
+  - reflexivity.
+  - destruct (is_digit c); [apply IH | reflexivity].
+Qed.
+
+Lemma is_digit_48 : forall d, d < 10 -> is_digit (48 + d) = true.
+Proof. intros d H. unfold is_digit. lia. Qed.
+
+Lemma is_digit_range : forall c, is_digit c = true -> 48 <= c /\ c <= 57.
+Proof. intros c H. unfold is_digit in H. lia. Qed.
+
+Lemma digits_fuel_val : forall f n, n < 2 ^ N.of_nat f -> digits_val_acc 0 (digits_fuel f n []) = Some n.
+Proof.
+  induction f as [|f IH]; intros n Hn.
+  - cbn in Hn. cbn. f_equal. lia.
+  - cbn [digits_fuel]. destruct (n <? 10) eqn:E.
+    + cbn [digits_val_acc]. rewrite is_digit_48 by (apply N.mod_lt; lia).
+      f_equal. rewrite N.mod_small by lia. lia.
+    + rewrite digits_fuel_app, digits_val_acc_app.
+      assert (Hp : 2 ^ N.of_nat (S f) = 2 * 2 ^ N.of_nat f).
+      { rewrite Nat2N.inj_succ, N.pow_succ_r'. reflexivity. }
+      rewrite IH.
+      * cbn [digits_val_acc]. rewrite is_digit_48 by (apply N.mod_lt; lia).
+        f_equal. pose proof (N.div_mod n 10). lia.
+      * rewrite Hp in Hn. apply N.div_lt_upper_bound; lia.
+Qed.
+
+Lemma digits_nonempty : forall n, digits n <> [].
+Proof.
+  intro n. unfold digits. cbn [digits_fuel]. destruct (n <? 10).
+  - discriminate.
+  - rewrite digits_fuel_app. intro H. apply app_eq_nil in H. destruct H as [_ H]. discriminate.
+Qed.
+
+Lemma digits_val_acc_digits : forall n, digits_val_acc 0 (digits n) = Some n.
+Proof.
+  intro n. unfold digits. apply digits_fuel_val.
+  rewrite Nat2N.inj_succ, N2Nat.id, N.pow_succ_r'.
+  pose proof (N.size_gt n). lia.
+Qed.
+
+Theorem digits_roundtrip : forall n, digits_val (digits n) = Some n.
+Proof.
+  intro n. unfold digits_val. pose proof (digits_nonempty n). destruct (digits n) eqn:E; [congruence|].
+  rewrite <- E. apply digits_val_acc_digits.
+Qed.
+
+Lemma digits_fuel_all : forall f n acc, forallb is_digit acc = true -> forallb is_digit (digits_fuel f n acc) = true.
+Proof.
+  induction f as [|f IH]; intros n acc H; cbn [digits_fuel]; [exact H|].
+  assert (H1 : forallb is_digit ((48 + n mod 10) :: acc) = true).
+  { cbn [forallb]. rewrite H, is_digit_48 by (apply N.mod_lt; lia). reflexivity. }
+  destruct (n <? 10); [exact H1 | apply IH; exact H1].
+Qed.
+Lemma digits_all : forall n, forallb is_digit (digits n) = true.
+Proof. intro n. apply digits_fuel_all. reflexivity. Qed.
+
+(* ------------------------------------------------------------------ integer literals *)
+Lemma int_of_text_small : forall n, n <= max_int64 -> int_of_text (digits n) = Some (EInt (Z.of_N n)).
+Proof. intros n H. unfold int_of_text. rewrite digits_roundtrip. apply N.leb_le in H. rewrite H. reflexivity. Qed.
+
+Lemma int_of_text_big : forall n, max_int64 < n -> n <= max_uint64 -> int_of_text (digits n) = Some (EUnsigned n).
+Proof.
+  intros n H1 H2. unfold int_of_text. rewrite digits_roundtrip.
+  apply N.leb_gt in H1. rewrite H1. apply N.leb_le in H2. rewrite H2. reflexivity.
+Qed.
+
+(* ------------------------------------------------------------------ number literals *)
+Lemma split_dot_digits : forall s acc t, forallb is_digit s = true -> split_dot (s ++ 46 :: t) acc = (rev acc ++ s, Some t).
+Proof.
+  induction s as [|c s IH]; intros acc t H; cbn [app split_dot].
+  - cbn. rewrite app_nil_r. reflexivity.
+  - cbn [forallb] in H. apply andb_prop in H. destruct H as [Hc Hs].
+    assert (E : (c =? 46) = false) by (apply is_digit_range in Hc; lia).
+    rewrite E, IH by exact Hs. cbn [rev]. rewrite <- app_assoc. reflexivity.
+Qed.
+
+Lemma last_is_app : forall c l x, last_is c (l ++ [x]) = (x =? c).
+Proof.
+  induction l as [|a l IH]; intro x; [reflexivity|].
+  cbn [app last_is]. destruct (l ++ [x]) eqn:E.
+  - destruct l; discriminate.
+  - rewrite <- E. apply IH.
+Qed.
+
+Lemma strip_trailing_zeros_id : forall fp, last_is 0 fp = false -> strip_trailing_zeros fp = fp.
+Proof.
+  intros fp H. unfold strip_trailing_zeros. destruct fp as [|a l] using rev_ind; [reflexivity|].
+  rewrite last_is_app in H. rewrite rev_app_distr. cbn [rev app strip_trailing_zeros_rev].
+  rewrite H. cbn [rev]. rewrite rev_involutive. reflexivity.
+Qed.
+
+Lemma digit_vals_frac : forall fp, forallb (fun d => d <? 10) fp = true -> digit_vals (frac_text fp) = Some fp.
+Proof.
+  intros fp H. unfold digit_vals, frac_text.
+  assert (A : forallb is_digit (map (fun d => 48 + d) fp) = true).
+  { induction fp as [|d fp IH]; [reflexivity|]. cbn [forallb map] in *. apply andb_prop in H. destruct H as [H1 H2].
+    rewrite IH by exact H2. rewrite is_digit_48 by lia. reflexivity. }
+  rewrite A. f_equal. rewrite map_map. rewrite <- (map_id fp) at 2. apply map_ext. intro a. lia.
+Qed.
+
+Lemma parse_number_print : forall ip fp, frac_ok fp = true ->
+  parse_number (digits ip ++ match fp with [] => [46; 48] | _ => 46 :: frac_text fp end) = Some (ip, fp).
+Proof.
+  intros ip fp H. unfold frac_ok in H. apply andb_prop in H. destruct H as [H1 H2]. apply negb_true_iff in H2.
+  unfold parse_number.
+  destruct fp as [|d fp'].
+  - rewrite split_dot_digits by apply digits_all. cbn [rev app].
+    pose proof (digits_nonempty ip) as Hn. pose proof (digits_roundtrip ip) as Hr.
+    destruct (digits ip) eqn:E; [congruence|]. rewrite Hr. reflexivity.
+  - rewrite split_dot_digits by apply digits_all. cbn [rev app].
+    pose proof (digits_nonempty ip) as Hn. pose proof (digits_roundtrip ip) as Hr.
+    destruct (digits ip) eqn:E; [congruence|]. rewrite Hr.
+    rewrite digit_vals_frac by exact H1. rewrite strip_trailing_zeros_id by exact H2. reflexivity.
+Qed.
+
+(* ------------------------------------------------------------------ durations *)
+Lemma take_digits_app : forall s acc t, forallb is_digit s = true ->
+  match t with [] => True | c :: _ => is_digit c = false end ->
+  take_digits (s ++ t) acc = (rev acc ++ s, t).
+Proof.
+  induction s as [|c s IH]; intros acc t H Ht; cbn [app].
+  - rewrite app_nil_r. destruct t as [|c t]; cbn [take_digits]; [reflexivity|]. rewrite Ht. reflexivity.
+  - cbn [forallb] in H. apply andb_prop in H. destruct H as [Hc Hs]. cbn [take_digits]. rewrite Hc.
+    rewrite IH by assumption. cbn [rev]. rewrite <- app_assoc. reflexivity.
+Qed.
+
+Definition units : list (Z * str) :=
+  [(ns_w, [119]); (ns_d, [100]); (ns_h, [104]); (ns_m, [109]); (ns_s, [115]); (ns_ms, [109; 115]); (1%Z, [110; 115]); (ns_us, [117])].
+
+Lemma parse_duration_len2 : forall s, (2 <= length s)%nat ->
+  parse_duration s = match parse_duration_fuel (S (length s)) s 0%Z with
+                     | Some z => if (z <=? Z.of_N max_int64)%Z then Some z else None
+                     | None => None end.
+Proof. intros s H. destruct s as [|a [|b s]]; cbn [length] in H; try lia. reflexivity. Qed.
+
+Lemma parse_duration_unit : forall q u sfx, In (u, sfx) units -> q <= max_int64 -> (Z.of_N q * u <= Z.of_N max_int64)%Z ->
+  parse_duration (digits q ++ sfx) = Some (Z.of_N q * u)%Z.
+Proof.
+  intros q u sfx Hin Hq Hb.
+  assert (Hlen : (2 <= length (digits q ++ sfx))%nat).
+  { rewrite app_length. pose proof (digits_nonempty q). destruct (digits q); [congruence|].
+    cbn in Hin. cbn [length]. repeat (destruct Hin as [Hin|Hin]; [inversion Hin; subst; cbn; lia|]). contradiction. }
+  rewrite parse_duration_len2 by exact Hlen.
+  remember (length (digits q ++ sfx)) as L. destruct L as [|[|L]]; try lia.
+  cbn [parse_duration_fuel].
+  pose proof (digits_nonempty q) as Hne.
+  assert (Hs : exists c r, digits q ++ sfx = c :: r).
+  { destruct (digits q) as [|c r]; [congruence|]. exists c, (r ++ sfx). reflexivity. }
+  destruct Hs as [c0 [r0 Hs]]. rewrite Hs. rewrite <- Hs.
+  assert (Hltb : N.ltb max_int64 q = false) by (apply N.ltb_ge; exact Hq).
+  cbn in Hin.
+  repeat (destruct Hin as [Hin|Hin];
+    [inversion Hin; subst u sfx;
+     rewrite take_digits_app by (try apply digits_all; reflexivity);
+     cbn [rev app]; rewrite digits_roundtrip, Hltb; cbn -[Z.mul Z.add Z.leb max_int64 Z.of_N];
+     rewrite Z.add_0_l; apply Z.leb_le in Hb; try rewrite Z.mul_1_r in *; rewrite Hb; reflexivity|]).
+  contradiction.
+Qed.
+
+Lemma dur_unit_spec : forall dr z, (dr = true \/ Z.rem z ns_us = 0%Z) ->
+  In (dur_unit dr z) units /\ Z.rem z (fst (dur_unit dr z)) = 0%Z /\ (0 < fst (dur_unit dr z))%Z.
+Proof.
+  intros dr z H. unfold dur_unit.
+  Local Ltac du_done E := apply Z.eqb_eq in E; cbn [fst]; split; [unfold units; cbn [In]; tauto | split; [exact E | reflexivity]].
+  destruct (Z.rem z ns_w =? 0)%Z eqn:E1; [du_done E1|].
+  destruct (Z.rem z ns_d =? 0)%Z eqn:E2; [du_done E2|].
+  destruct (Z.rem z ns_h =? 0)%Z eqn:E3; [du_done E3|].
+  destruct (Z.rem z ns_m =? 0)%Z eqn:E4; [du_done E4|].
+  destruct (Z.rem z ns_s =? 0)%Z eqn:E5; [du_done E5|].
+  destruct (Z.rem z ns_ms =? 0)%Z eqn:E6; [du_done E6|].
+  destruct (Z.rem z ns_us =? 0)%Z eqn:E7.
+  - rewrite andb_false_r. du_done E7.
+  - destruct H as [H|H]; [subst dr | apply Z.eqb_neq in E7; contradiction].
+    cbn [andb negb fst]. split; [unfold units; cbn [In]; tauto|]. split; [apply Z.rem_1_r | reflexivity].
+Qed.
+
+Lemma digits_head_not_minus : forall n t, match digits n ++ t with 45 :: _ => False | _ => True end.
+Proof.
+  intros n t. pose proof (digits_nonempty n) as H. pose proof (digits_all n) as A.
+  destruct (digits n) as [|c r]; [congruence|]. cbn [forallb] in A. apply andb_prop in A. destruct A as [A _].
+  apply is_digit_range in A. cbn [app]. destruct c as [|p]; [exact I|].
+  destruct (N.eq_dec (N.pos p) 45) as [E|E]; [lia|].
+  repeat (destruct p as [p|p|]; try exact I); lia.
+Qed.
+
+(* what may follow an atom in printed text: end, white space (before an operator), ) or , *)
+Definition follow (rest : list token) : bool :=
+  match rest with [] | TWs :: _ | TRParen :: _ | TComma :: _ => true | _ => false end.
+
+Section Parser.
+Variable prec : op -> N.
+Variable isop : op -> bool.
+Variable kws : list (str * N).
+Variables nr dr : bool.
+
+Notation PU := (parse_unary prec isop).
+Notation PE := (parse_expr prec isop).
+Notation PL := (parse_loop prec isop).
+Notation PC := (parse_call prec isop).
+Notation PA := (parse_args prec isop).
+Notation PT := (print_toks nr dr).
+Notation CANON := (canon prec isop kws nr dr).
+
+Lemma duration_parse : forall z f rest,
+  ((- Z.of_N max_int64 <=? z) && (z <=? Z.of_N max_int64))%Z && (dr || (Z.rem z ns_us =? 0)%Z) = true ->
+  PU (S (S f)) (duration_toks dr z ++ rest) = Some (EDur z, rest).
+Proof.
+  intros z f rest H. apply andb_prop in H. destruct H as [Hr Hd]. apply andb_prop in Hr. destruct Hr as [Hlo Hhi].
+  apply Z.leb_le in Hlo. apply Z.leb_le in Hhi.
+  assert (Hd' : dr = true \/ Z.rem z ns_us = 0%Z).
+  { apply orb_prop in Hd. destruct Hd as [Hd|Hd]; [left; exact Hd | right; apply Z.eqb_eq; exact Hd]. }
+  unfold duration_toks, format_duration_gen.
+  destruct (z =? 0)%Z eqn:E0.
+  - apply Z.eqb_eq in E0. subst z. reflexivity.
+  - apply Z.eqb_neq in E0. pose proof (dur_unit_spec dr z Hd') as [Hin [Hrem Hpos]].
+    destruct (dur_unit dr z) as [u sfx] eqn:EU. cbn [fst] in *.
+    assert (Hz : z = (u * Z.quot z u)%Z).
+    { pose proof (Z.quot_rem' z u). lia. }
+    unfold zdigits. destruct (Z.quot z u <? 0)%Z eqn:Eq.
+    + apply Z.ltb_lt in Eq. cbn [app].
+      cbn [parse_unary skip_ws].
+      assert (Hp : parse_duration (digits (Z.to_N (- Z.quot z u)) ++ sfx) = Some (- z)%Z).
+      { rewrite (parse_duration_unit _ u sfx Hin).
+        - f_equal. rewrite Z2N.id by lia. lia.
+        - unfold max_int64 in *. nia.
+        - rewrite Z2N.id by lia. nia. }
+      rewrite Hp. cbn [apply_sign]. rewrite Z.opp_involutive. reflexivity.
+    + apply Z.ltb_ge in Eq.
+      pose proof (digits_head_not_minus (Z.to_N (Z.quot z u)) sfx) as Hh.
+      assert (Hp : parse_duration (digits (Z.to_N (Z.quot z u)) ++ sfx) = Some z).
+      { rewrite (parse_duration_unit _ u sfx Hin).
+        - f_equal. rewrite Z2N.id by lia. lia.
+        - unfold max_int64 in *. nia.
+        - rewrite Z2N.id by lia. nia. }
+      destruct (digits (Z.to_N (Z.quot z u)) ++ sfx) as [|c t] eqn:Et.
+      * cbn [app parse_unary skip_ws]. rewrite Hp. reflexivity.
+      * destruct (N.eq_dec c 45) as [Ec|Ec]; [subst c; contradiction|].
+        assert (Hm : match c :: t with 45 :: t' => [TOp OSub; TDuration t'] | _ => [TDuration (c :: t)] end = [TDuration (c :: t)]).
+        { destruct c as [|p]; [reflexivity|]. repeat (destruct p as [p|p|]; try reflexivity). contradiction Ec; reflexivity. }
+        rewrite Hm. cbn [app parse_unary skip_ws]. rewrite Hp. reflexivity.
+Qed.
+
+(* ------------------------------------------------------------------ simple atoms *)
+Lemma str_eqb_eq : forall a b, str_eqb a b = true -> a = b.
+Proof.
+  induction a as [|x a IH]; destruct b as [|y b]; cbn [str_eqb]; intro H; try discriminate; [reflexivity|].
+  apply andb_prop in H. destruct H as [H1 H2]. apply N.eqb_eq in H1. subst y. f_equal. apply IH. exact H2.
+Qed.
+
+Lemma PU_ws : forall f t, PU f (TWs :: t) = PU f t.
+Proof. intros [|f] t; reflexivity. Qed.
+
+Lemma name_ok_spec : forall s, name_ok s = true -> str_eqb (lower s) str_inf = false /\ str_eqb (lower s) str_nan = false.
+Proof.
+  intros s H. unfold name_ok in H. apply andb_prop in H. destruct H as [H1 H2].
+  apply negb_true_iff in H1. apply negb_true_iff in H2. split; assumption.
+Qed.
+
+Lemma number_toks_canon : forall neg ip fp,
+  frac_ok fp && (nr || negb (match fp with [] => true | _ => false end) || (negb neg && (maxint_float_ip <? ip))) = true ->
+  number_toks nr neg ip fp =
+  (if neg then [TOp OSub] else []) ++ [TNumber (digits ip ++ match fp with [] => [46; 48] | _ => 46 :: frac_text fp end)].
+Proof.
+  intros neg ip fp H. apply andb_prop in H. destruct H as [_ H]. unfold number_toks.
+  destruct fp as [|d fp'].
+  - cbn [negb orb] in H. rewrite orb_false_r in H. rewrite H. reflexivity.
+  - reflexivity.
+Qed.
+
+Lemma atom_parse : forall e arg f rest, CANON arg e = true -> follow rest = true ->
+  match e with
+  | EParen _ | ECall _ _ | EBin _ _ _ => True
+  | _ => PU (S (S f)) (PT e ++ rest) = Some (e, rest)
+  end.
+Proof.
+  intros e arg f rest Hc Hf. destruct e as [name t|z|n|neg ip fp|k|s|b|z|src|w|e'|name args|o l r]; try exact I.
+  - (* EVar *)
+    cbn [canon] in Hc. apply andb_prop in Hc. destruct Hc as [Hc Ht]. apply andb_prop in Hc. destruct Hc as [_ Hn].
+    apply name_ok_spec in Hn. destruct Hn as [Hi Hn].
+    cbn [print_toks app parse_unary skip_ws]. rewrite Hi, Hn.
+    destruct t; cbn in Ht; try discriminate; cbn [dtype_eqb dtype_idx N.eqb Pos.eqb app dtype_tok];
+      try reflexivity.
+    destruct rest as [|tk rest']; [reflexivity|]. destruct tk; cbn in Hf; try discriminate; reflexivity.
+  - (* EInt *)
+    cbn [canon] in Hc. apply andb_prop in Hc. destruct Hc as [Hlo Hhi]. apply Z.leb_le in Hlo. apply Z.leb_le in Hhi.
+    cbn [print_toks]. destruct (z <? 0)%Z eqn:E.
+    + apply Z.ltb_lt in E. cbn [app parse_unary skip_ws].
+      destruct (N.eq_dec (Z.to_N (- z)) two63) as [E2|E2].
+      * rewrite E2. rewrite int_of_text_big by (unfold max_int64, max_uint64, two63; lia).
+        cbn [apply_sign]. rewrite N.eqb_refl. do 3 f_equal. unfold two63 in *. lia.
+      * rewrite int_of_text_small by (unfold max_int64, two63 in *; lia).
+        cbn [apply_sign]. do 3 f_equal. rewrite Z2N.id by lia. lia.
+    + apply Z.ltb_ge in E. cbn [app parse_unary skip_ws].
+      rewrite int_of_text_small by (unfold max_int64 in *; lia). rewrite Z2N.id by lia. reflexivity.
+  - (* EUnsigned *)
+    cbn [canon] in Hc. apply andb_prop in Hc. destruct Hc as [Hlo Hhi]. apply N.ltb_lt in Hlo. apply N.leb_le in Hhi.
+    cbn [print_toks app parse_unary skip_ws]. rewrite int_of_text_big by assumption. reflexivity.
+  - (* ENum *)
+    cbn [canon] in Hc. cbn [print_toks]. rewrite (number_toks_canon _ _ _ Hc).
+    apply andb_prop in Hc. destruct Hc as [Hfr _].
+    destruct neg; cbn [app parse_unary skip_ws]; rewrite (parse_number_print ip fp Hfr); reflexivity.
+  - (* ESpecial *)
+    cbn [canon] in Hc. apply N.ltb_lt in Hc.
+    assert (Hk : k = 0 \/ k = 1 \/ k = 2) by lia. destruct Hk as [Hk|[Hk|Hk]]; subst k; reflexivity.
+  - reflexivity.
+  - destruct b; reflexivity.
+  - (* EDur *) cbn [canon] in Hc. cbn [print_toks]. apply duration_parse. exact Hc.
+  - reflexivity.
+  - (* EWild *)
+    destruct w; cbn [print_toks app parse_unary skip_ws]; try reflexivity.
+    destruct rest as [|tk rest']; [reflexivity|]. destruct tk; cbn in Hf; try discriminate; reflexivity.
+Qed.
+
+End Parser.
+
+(* ------------------------------------------------------------------ quoting: QuoteString / QuoteIdent vs ScanString *)
+Lemma unquote_escape : forall q s acc rest, (q = 34 \/ q = 39) -> wf_str s = true ->
+  unquote q (escape q s ++ q :: rest) acc = Some (rev acc ++ s, rest).
+Proof.
+  intros q s. induction s as [|c s IH]; intros acc rest Hq Hwf.
+  - cbn [escape app unquote]. rewrite N.eqb_refl, app_nil_r. reflexivity.
+  - cbn [wf_str forallb] in Hwf. apply andb_prop in Hwf. destruct Hwf as [Hc Hs]. unfold wf_char in Hc.
+    assert (IH' : forall x, unquote q (escape q s ++ q :: rest) (x :: acc) = Some (rev acc ++ x :: s, rest)).
+    { intro x. rewrite IH by assumption. cbn [rev]. rewrite <- app_assoc. reflexivity. }
+    cbn [escape]. destruct (c =? 10) eqn:E10.
+    + apply N.eqb_eq in E10. subst c. cbn [app unquote].
+      assert (E : (92 =? q) = false) by (destruct Hq; subst q; reflexivity). rewrite E. cbn. apply IH'.
+    + destruct (c =? 92) eqn:E92.
+      * apply N.eqb_eq in E92. subst c. cbn [app unquote].
+        assert (E : (92 =? q) = false) by (destruct Hq; subst q; reflexivity). rewrite E. cbn. apply IH'.
+      * destruct (c =? q) eqn:Eq.
+        -- apply N.eqb_eq in Eq. subst c. cbn [app unquote].
+           assert (E : (92 =? q) = false) by (destruct Hq; subst q; reflexivity). rewrite E.
+           destruct Hq; subst q; cbn; apply IH'.
+        -- cbn [app unquote]. rewrite Eq, E10, E92.
+           assert (E : ((c =? 13) || (c =? 0)) = false) by lia. cbn [orb]. rewrite E. apply IH'.
+Qed.
+
+Theorem quote_string_roundtrip : forall s rest, wf_str s = true ->
+  match quote_string s ++ rest with
+  | q :: body => q = 39 /\ unquote 39 body [] = Some (s, rest)
+  | [] => False
+  end.
+Proof.
+  intros s rest H. unfold quote_string. cbn [app]. split; [reflexivity|].
+  rewrite <- app_assoc. cbn [app]. rewrite unquote_escape by (auto). reflexivity.
+Qed.
+
+(* a quoted identifier scans back to the identifier; an unquoted one is printed verbatim *)
+Theorem quote_ident_roundtrip : forall kws s rest, wf_str s = true ->
+  if ident_needs_quotes kws s
+  then match quote_ident kws s ++ rest with
+       | q :: body => q = 34 /\ unquote 34 body [] = Some (s, rest)
+       | [] => False
+       end
+  else bare_ok s = true /\ kw_lookup kws (lower s) = None.
+Proof.
+  intros kws s rest H. unfold quote_ident. destruct (ident_needs_quotes kws s) eqn:E.
+  - cbn [app]. split; [reflexivity|]. rewrite <- app_assoc. cbn [app]. rewrite unquote_escape by (auto). reflexivity.
+  - unfold ident_needs_quotes in E. destruct (kw_lookup kws (lower s)); [discriminate|].
+    apply negb_false_iff in E. split; [exact E | reflexivity].
+Qed.
